@@ -73,8 +73,9 @@ CLAIMED["C02"] = dict(
           "position is a contaminant or shares a stripped identifier with a leading protein of an earlier-kept survivor that "
           "scores higher, or equally with the placeholder clause; no survivor shares such an identifier with a strictly "
           "higher-scoring survivor; classic removes only contaminants. Correspondence: the real do_competition with the "
-          "permutations numpy applied recorded and replayed in the model (exhaustive 2-3-group scope + random); a Python "
-          "monitor of the property classifies disagreements."),
+          "permutations numpy applied recorded and replayed in the model (exhaustive 2-3-group scope + random, scores of every "
+          "scoring regime incl. -100.0 with evidence); a Python monitor of the property classifies disagreements and alone decides "
+          "groups whose members have 200-1000 peptides (monitor only)."),
     note=COMMON_NOTE + "Python sorted is stable; scores come from a stub scorer (C05 covers the real scores); the 'all' and "
          "'majority' picking strategies (not selectable by any shipped method) are not modelled. Axioms: none.",
     technique="Coq proof over greedy pass + stable sort, quantified over all shuffles; recorded-shuffle differential correspondence",
@@ -267,7 +268,8 @@ CLAIMED["C16"] = dict(
           "rename(2) and the correspondence between the real steps and the modelled operations are runtime facts; they are explored by "
           "strace traces of both real steps (openat/rename on the two paths must be exactly open-truncate tmp, rename tmp->final; "
           "nothing on an existing output) and by SIGKILL at every row write, before and after the rename, each followed by two re-runs "
-          "compared byte for byte."),
+          "compared byte for byte; write errors raised inside the writer; the output path typed relative, with ./, sub/../ and ~ (two "
+          "runs in a row, every file of the tree compared)."),
     note=COMMON_NOTE + "PARTIAL: OS crash semantics (rename atomicity, data written before close survives SIGKILL) trusted; power "
          "loss outside the property. Kill points are injected from outside (wrapping tsv.get_tsv_writer / os.rename). Axioms: none.",
     technique="Coq proof over a crash-state model of the protocol + syscall-trace correspondence + exhaustive kill-point runs",
@@ -284,7 +286,8 @@ CLAIMED["C13"] = dict(
           "exactly the passing rows, unchanged, in order. Correspondence: CLI runs with --do_quant (1-3 experiments, label-free, "
           "SILAC 2/3, TMT, --skip_lfq, DIA-NN 1-3 runs, minimal writer) - header vs model, row lengths, read-back of ids/q/score "
           "vs in-memory results; byte-level comparison of the tool's tsv writer with the Coq writer and the Coq reader on the same "
-          "bytes; the filter tool on generated files."),
+          "bytes; the filter tool on generated files (q-values incl. nan / inf, a nan cutoff); monitor-only sweeps: cells beyond the csv "
+          "field limit, a re-read asking for present and absent columns, a table that is not valid UTF-8 (refused or unchanged)."),
     note=COMMON_NOTE + "Cell VALUES are C12's subject (only their number enters here). Triqler columns and FragPipe writers not "
          "modelled. repr(float) round trip is a language guarantee; float(cell) <= cutoff tabulated. Axioms: none.",
     technique="Coq invariant proof over generator sequences + csv state-machine round-trip proof + CLI/byte-level differential correspondence",
@@ -328,7 +331,9 @@ CLAIMED["C11"] = dict(
           "known finding D16, replayed on the real code in every run. Correspondence: the real _getLFQIntensities with its "
           "stages recorded (matrix and total exact, medians 1e-13, log ratios through a tabulated ln 1e-11, zero pattern, total 1e-9, "
           "normal equations 1e-3 on the implementation's own answer); append_columns: the graph handed down vs the Coq graph model, "
-          "columns = per-group results; metamorphic runs (order-preserving renaming, precursor order, scaling, sample permutation)."),
+          "columns = per-group results; metamorphic runs (order-preserving renaming, precursor order, scaling, sample permutation, "
+          "--num_threads 2 through an in-process stand-in for the absent job pool); chains of 12-60 samples with exactly consistent data "
+          "(monitor only)."),
     note=COMMON_NOTE + "PARTIAL: np.log/np.exp, float division, bottleneck.nanmedian and scipy's iterative lsqr are outside the model; the "
          "final comparison is tolerance-based (supporting evidence, not exact correspondence). Precursor-order, renaming and scaling "
          "invariance are theorems about the exact layer AND metamorphic tests on the implementation's final floats. Axioms (theorems over R only): "
